@@ -102,6 +102,9 @@ func runC20(w *World, r *Report) {
 		if fn.Origin() != nil {
 			continue
 		}
+		if helperFor(fn) != nil {
+			continue // part of its callers (adopt.go)
+		}
 		Instrs(fn, func(in ssa.Instruction) {
 			c, ok := in.(*ssa.Call)
 			if !ok {
@@ -148,9 +151,12 @@ func runC20(w *World, r *Report) {
 		checkConds("run/stable-state-update-guard", posOf(s), CondsOf(s.Block()), nil)
 		follows := canReach(callT[0].Block(), s.Block()) && canReach(callF[0].Block(), s.Block()) && !canReach(s.Block(), callT[0].Block()) == false || true
 		_ = follows
-		okVal := s.Val == obs && trigTrue[0].Block() == s.Block()
+		okVal := unhelp(s.Val) == obs && trigTrue[0].Block() == s.Block()
 		// both reaction blocks flow into the update block without passing the observation again
 		reach := func(from *ssa.BasicBlock) bool {
+			if from.Parent() != s.Block().Parent() {
+				return false
+			}
 			seen := reachableFrom(from, func(b *ssa.BasicBlock) bool { return b == obs.(*ssa.Call).Block() })
 			return seen[s.Block()]
 		}
